@@ -155,7 +155,7 @@ def variant(draw, base_spec, all_specs) -> tuple[str, str]:
     """Returns (kind, text) — a chart text related to ``base_spec``."""
     kind = draw(st.sampled_from(["res", "res", "sustain", "content", "invalid_forced", "invalid_nores",
                                  "invalid_header", "invalid_dup_tempo", "invalid_midway", "invalid_midway",
-                                 "same", "unrelated"]))
+                                 "song_dup", "song_dup", "song_perm", "same", "unrelated"]))
     spec = copy.deepcopy(base_spec)
     if kind == "res":
         res = spec["res"]
@@ -182,6 +182,25 @@ def variant(draw, base_spec, all_specs) -> tuple[str, str]:
                                  for it in items]
         spec["events"] = [[e[0], e[1] + "!"] for e in spec["events"]]
         spec["song"] = [["Name", '"other"'], ["Offset", "5"], ["Player2", "rhythm"], ["Genre", '"pop"']]
+    elif kind in ("song_dup", "song_perm"):
+        # [Song] variants: the same fields on other lines, or a field written TWICE (the first line wins;
+        # which line that is must not depend on what was parsed before)
+        song = [list(x) for x in (spec.get("song") or [])]
+        if len(song) < 4:
+            song = [["Name", '"n1"'], ["Artist", '"a1"'], ["Resolution", str(spec["res"])], ["Charter", '"c1"'],
+                    ["Album", '"al1"']]
+        if kind == "song_perm":
+            song = list(draw(st.permutations(song)))
+        else:
+            idx = [k for k, x in enumerate(song) if x[0] != "Resolution"]
+            j = draw(st.sampled_from(idx))
+            i = draw(st.sampled_from(idx))
+            if i != j:
+                val = '"dup_%d"' % j if song[i][1].startswith('"') else ("7" if song[i][1] != "7" else "8")
+                if song[i][0] == "Player2":
+                    val = "rhythm" if song[i][1] == "bass" else "bass"
+                song[j] = [song[i][0], val]
+        spec["song"] = song
     elif kind == "invalid_forced":
         h = next(iter(spec["tracks"]), "ExpertSingle")
         spec["tracks"][h] = [[0, "N", 0, 0], [0, "N", 5, 0]] + [it for it in spec["tracks"].get(h, []) if it[0] > 0]
@@ -236,7 +255,11 @@ def drive_machine(ctx: Ctx) -> None:
                                     max_ts=1, max_anchors=1, min_notes=2))
         def setup(self, c):
             self.base = c["spec"]
-            self.case["texts"].append(S.render(c["spec"]))
+            if len(self.base.get("song") or []) < 4:
+                self.base = dict(self.base, song=[["Name", '"n1"'], ["Artist", '"a1"'],
+                                                  ["Resolution", str(self.base["res"])], ["Charter", '"c1"'],
+                                                  ["Album", '"al1"']])
+            self.case["texts"].append(S.render(self.base))
 
         @precondition(lambda self: len(self.case["texts"]) < 8)
         @rule(data=st.data())
